@@ -63,6 +63,14 @@ def extract():
     expect("c12.laplace.placement", rel, t,
            r"Direction::Left => \{\s*Replicated::new\(OV::ZERO, OV::truncate_from\(u128::from\(symmetric_sample\)\)\)\s*\}\s*Direction::Right => \{\s*Replicated::new\(OV::truncate_from\(u128::from\(symmetric_sample\)\), OV::ZERO\)")
     expect("c12.laplace.three_passes", rel, t, r"LaplacePass1\),\s*histogram_bin_values,\s*Role::H1,.*?LaplacePass2\),\s*noised_output,\s*Role::H2,.*?LaplacePass3\),\s*noised_output,\s*Role::H3,")
+    expect("c12.laplace.rng_by_direction", rel, t,
+           r"let \(mut left, mut right\) = ctx\.prss_rng\(\);\s*let rng = match direction_to_excluded_helper \{\s*Direction::Left => &mut right,\s*Direction::Right => &mut left,\s*\};")
+    expect("c12.laplace.per_bucket_draw", rel, t,
+           r"std::array::from_fn\(\|_i\| \{\s*shifted_truncated_discrete_laplace\.sample_shares\(rng, direction_to_excluded_helper\)\s*\}\)")
+    expect("c12.laplace.add_noise", rel, t,
+           r"let \(histogram_noised, _\) = integer_add::<_, ThirtyTwoBitStep, B>\(\s*apply_noise_ctx,\s*RecordId::FIRST,\s*&noise_shares_vectorized,\s*&histogram_bin_values,\s*\)")
+    expect("c12.laplace.params", rel, t,
+           r"DpMechanism::DiscreteLaplace \{ epsilon \} => \{\s*let noise_params = NoiseParams \{\s*epsilon,\s*per_user_credit_cap: 2_u32\.pow\(u32::try_from\(SS_BITS\)\.unwrap\(\)\),\s*\.\.Default::default\(\)\s*\};")
     expect("c12.laplace.excluded_zero", rel, t, r"std::array::from_fn\(\|_i\| Replicated::new\(OV::ZERO, OV::ZERO\)\)")
 
     rel = "protocol/ipa_prf/oprf_padding/insecure.rs"
@@ -95,6 +103,35 @@ def extract():
 
     rel = "protocol/ipa_prf/oprf_padding/mod.rs"
     t = read(rel)
+    # ---- dummy rows (Model/Padding.lean)
+    expect("c12.pad.pass_order", rel, t,
+           r"PaddingDpStep::PaddingDpPass1\),\s*input,\s*Role::H3,.*?PaddingDpStep::PaddingDpPass2\),\s*input,\s*Role::H2,.*?PaddingDpStep::PaddingDpPass3\),\s*input,\s*Role::H1,")
+    expect("c12.pad.rng_by_direction", rel, t,
+           r"let \(mut left, mut right\) = ctx\.prss_rng\(\);\s*let rng = match direction_to_excluded_helper \{\s*Direction::Left => &mut right,\s*Direction::Right => &mut left,\s*\};\s*let total_number_of_fake_rows = T::add_padding_items")
+    expect("c12.pad.oprf.loop", rel, t,
+           r"for cardinality in 1\.\.=matchkey_cardinality_cap \{\s*let sample = oprf_padding\.sample\(rng\);\s*total_number_of_fake_rows \+= sample \* cardinality;")
+    expect("c12.pad.oprf.groups", rel, t,
+           r"repeat_with\(\|\| \{\s*let dummy_mk: BA64 = rng\.r#gen\(\);\s*std::iter::repeat_n\(\s*IndistinguishableHybridReport::from\(\s*AdditiveShare::new_excluding_direction\(\s*dummy_mk,\s*direction_to_excluded_helper,\s*\),\s*\),\s*cardinality as usize,\s*\)\s*\}\)(?:\s*//[^\n]*)*\s*\.take\(sample as usize\)\s*\.flatten\(\)")
+    expect("c12.pad.agg.loop", rel, t,
+           r"for breakdownkey in 0\.\.num_breakdowns \{\s*let sample = aggregation_padding\.sample\(rng\);\s*total_number_of_fake_rows \+= sample;")
+    expect("c12.pad.agg.row", rel, t,
+           r"Direction::Left => AdditiveShare::new\(\s*BK::ZERO,\s*BK::truncate_from\(u128::from\(breakdownkey\)\),\s*\),\s*Direction::Right => AdditiveShare::new\(\s*BK::truncate_from\(u128::from\(breakdownkey\)\),\s*BK::ZERO,\s*\),\s*\};\s*let row = IndistinguishableHybridReport::<BK, V, \(\)> \{\s*match_key: \(\),\s*value: AdditiveShare::new\(V::ZERO, V::ZERO\),\s*breakdown_key: breakdownkey_shares,")
+    expect("c12.pad.excluded_zero_rows", rel, t,
+           r"if from_right != from_left \{\s*return Err::<Vec<T>, error::Error>\(Error::InconsistentPadding\);\s*\}\s*total_number_of_fake_rows = u32::try_from\(from_right\.as_u128\(\)\)\.unwrap\(\);\s*T::add_zero_shares\(&mut padding_input_rows, total_number_of_fake_rows\);")
+    expect("c12.pad.count_sent", rel, t,
+           r"send_ctx\.send_channel::<BA32>\(send_ctx\.role\(\)\.peer\(direction_to_excluded_helper\)\);\s*send_channel\s*\.send\(\s*RecordId::FIRST,\s*BA32::truncate_from\(u128::from\(total_number_of_fake_rows\)\),")
+    rel2 = "secret_sharing/replicated/mod.rs"
+    t2 = read(rel2)
+    expect("c12.pad.new_excluding_direction", rel2, t2,
+           r"fn new_excluding_direction\(v: V, direction: Direction\) -> Self \{\s*match direction \{\s*Direction::Left => Self::new\(V::ZERO, v\),\s*Direction::Right => Self::new\(v, V::ZERO\),")
+    rel2 = "report/hybrid.rs"
+    t2 = read(rel2)
+    expect("c12.pad.report_from_match_key", rel2, t2,
+           r"fn from\(match_key: Replicated<BA64>\) -> Self \{\s*Self \{\s*match_key,\s*value: Replicated::<V>::ZERO,\s*breakdown_key: Replicated::<BK>::ZERO,")
+    rel2 = "ff/boolean_array.rs"
+    t2 = read(rel2)
+    expect("c12.pad.ba_from_u128", rel2, t2,
+           r"fn sample<R: crate::rand::Rng \+ \?Sized>\(&self, rng: &mut R\) -> \$name \{\s*<\$name>::from_random_u128\(rng\.r#gen::<u128>\(\)\)")
     pads = {}
     for k in ("aggregation_epsilon", "aggregation_delta", "aggregation_padding_sensitivity", "oprf_epsilon", "oprf_delta", "matchkey_cardinality_cap", "oprf_padding_sensitivity"):
         vals = re.findall(k + r": ([\de\.\-]+),", t)
@@ -104,6 +141,19 @@ def extract():
         record("c12.padding_defaults", rel, t, m, pads)
     else:
         fail("c12.padding_defaults", "Default for AggregationPadding not found")
+
+    # the instantiation production runs (suites c12_noise_e2e / c12_dummies include exactly this shape)
+    rel = "query/runner/hybrid.rs"
+    t = read(rel)
+    m = expect("c12.production.hybrid_protocol", rel, t, r"hybrid_protocol::<_, BA8, BA3, HV, 3, 256>\(")
+    m = expect("c12.production.hv", rel, t, r"Query::<_, BA32, R>::new\(ipa_config, key_registry\)")
+    rel = "protocol/hybrid/mod.rs"
+    t = read(rel)
+    expect("c12.production.padding_call", rel, t, r"apply_dp_padding::<_, IndistinguishableHybridReport<BK, V>, B>\(")
+    expect("c12.production.noise_call", rel, t, r"dp_for_histogram::<_, B, HV, SS_BITS>\(ctx, finalized_histogram\.values, dp_params\)")
+    rel = "protocol/hybrid/breakdown_reveal.rs"
+    t = read(rel)
+    expect("c12.production.agg_padding_call", rel, t, r"apply_dp_padding::<_, AggregateableHybridReport<BK, V>, B>\(")
 
     cap = caps[0] if caps else 0
     lines = [
